@@ -1,4 +1,5 @@
 import Clover.Generated.Facts
+import Clover.Proofs.Translated
 import Clover.Proofs.Window
 import Clover.Proofs.SortOrder
 import Clover.Proofs.SortClasses
@@ -184,13 +185,25 @@ theorem findFirst_is_the_specification_up_to_ties (s : Spec.State) (σ : KVS) (h
           compareDocuments a b q.sort = 0) :=
   findFirst_class_any_plan likeFn fnFam s σ hw hr q coll hl hdomain hsd hnn
 
+/-- (translated, regenerated from the source on every run) **`skipLimitNode.Callback` as the current source writes it**
+    is the model's `emit`: skip while `skipped < skip`, hand on while the limit is negative or `consumed < limit`, stop
+    otherwise - for every state of the counters and every skip / limit. -/
+theorem source_skip_limit_is_the_models (q : Query) (stopAfter : Option Nat) (st : Pipe) (d : Doc)
+    (h : (q.skip > 0 || q.limit ≥ 0) = true) :
+    emit q stopAfter st d =
+      match Gen.skipLimitNode_Callback ⟨st.skipped, st.consumed, q.skip, q.limit⟩ with
+      | (nd, .cont) => ({ st with skipped := nd.skipped.toNat, consumed := nd.consumed.toNat }, .cont)
+      | (nd, .call _) => consume stopAfter { st with skipped := nd.skipped.toNat, consumed := nd.consumed.toNat } d
+      | (nd, .stop) => ({ st with skipped := nd.skipped.toNat, consumed := nd.consumed.toNat }, .stop) :=
+  Translated.emit_eq_translated q stopAfter st d h
+
 end CV.Props.C08
 
 -- SOURCE-TEXT-BEGIN (generated by tools/mk_source_theorems.py; do not edit by hand)
 namespace CV.Props.C08
 
 /-- (facts, regenerated from the source on every run) **The source text the model transcribes is the text of the
-    current source**: the bodies (comments and layout removed) of the 21 functions the model behind C08 was written from and
+    current source**: the bodies (comments and layout removed) of the 20 functions the model behind C08 was written from and
     validated against.  Any edit of one of them breaks this theorem at build time; the check then searches with the
     property's own oracles for a failing input, and reports `no-failing-input-found` if it finds none: the model then
     has to be re-validated against the new text (and this block regenerated). -/
@@ -204,7 +217,6 @@ theorem source_decision_logic : CV.Facts.logicC08 = [
   "clover.planNodeBase.Finish: { return nil }", 
   "clover.planNodeBase.NextNode: { return nd.next }", 
   "clover.planNodeBase.SetNext: { nd.next = next }", 
-  "clover.skipLimitNode.Callback: { if nd.skipped < nd.skip { nd.skipped++ return nil } if nd.limit < 0 || (nd.limit >= 0 && nd.consumed < nd.limit) { nd.consumed++ return nd.CallNext(doc) } return internal.ErrStopIteration }", 
   "clover.sortNode.Callback: { if nd.docs == nil { nd.docs = make([]*d.Document, 0) } nd.docs = append(nd.docs, doc) return nil }", 
   "clover.sortNode.Finish: { if nd.docs != nil { sort.Slice(nd.docs, func(i, j int) bool { return compareDocuments(nd.docs[i], nd.docs[j], nd.opts) < 0 }) for _, doc := range nd.docs { if err := nd.CallNext(doc); err != nil { if errors.Is(err, internal.ErrStopIteration) { return nil } return err } } } return nil }", 
   "query..normalizeSortOptions: { normOpts := make([]SortOption, 0, len(opts)) for _, opt := range opts { if opt.Direction >= 0 { normOpts = append(normOpts, SortOption{Field: opt.Field, Direction: 1}) } else { normOpts = append(normOpts, SortOption{Field: opt.Field, Direction: -1}) } } return normOpts }", 
